@@ -323,6 +323,21 @@ def conversion_ranges(prog, chk, rid):
                     continue
                 L = INT_T.get(n.get("t", ""))
                 parsers.add(n["callee"])
+                # the text is a decimal numeral: the strto* parsers get the base 10 (base 0 reads "010" as octal and "0x10" as hex)
+                if re.match(r"^strto(u?l|u?ll|imax|umax)$", n["callee"]):
+                    ow_ = prog.functions.get(n.get("csig")) if False else None
+                    holder = f if n in f.nodes else None
+                    for g_ in ([f] + [prog.functions[s_] for s_ in prog.functions if prog.functions[s_].name == f.name and prog.functions[s_] is not f]):
+                        if holder is None and any(m_ is n for m_ in g_.nodes):
+                            holder = g_
+                    if holder is not None:
+                        a_ = q.call_args(holder, n["i"])
+                        base_ = fin.eval_expr(holder, a_[2], {}) if len(a_) >= 3 else None
+                        if base_ != 10:
+                            chk.bad(rid, f, "parser-base-not-decimal:" + n["callee"], f.where(r),
+                                    "%s is called with base %s: the conversion is defined on decimal text, with base 0 \"010\" converts to 8 and "
+                                    "\"0x10\" to 16 (and the result disagrees with the sibling conversions on the same text)" % (n["callee"], base_), evals=1)
+                            continue
                 if L is None:
                     chk.bad(rid, f, "parser-type-unknown", f.where(r), "result type `%s` of %s is not an integer type" % (n.get("t"), n["callee"]))
                 elif covers(L, R):
